@@ -1,3 +1,4 @@
+(* MODELS: lin *)
 (* Driver for the linear-algebra and n-port conversion models.  One case per input line:
      lu n <2*n*n rationals>
      mldivide m n <A: m*m complex> <B: m*n complex>
